@@ -142,6 +142,13 @@ impl<'tcx> Cx<'tcx> {
                     return J::obj().set("const", J::s("fn")).set("fn", f);
                 }
                 let mut j = J::obj().set("const", J::s(format!("{}", c.const_))).set("ty", J::s(ty_s(t)));
+                if t.is_integral() || t.is_bool() || t.is_char() {
+                    let env = TypingEnv::post_analysis(self.tcx, self.def);
+                    if let Some(si) = c.const_.try_eval_scalar_int(self.tcx, env) {
+                        let bits = si.to_bits(si.size());
+                        j.put("int", J::s(format!("{}", bits)));
+                    }
+                }
                 // static references
                 if let Const::Val(..) = c.const_ {
                     if let Some(did) = c.check_static_ptr(self.tcx) {
